@@ -7,7 +7,7 @@ import typing
 
 import warnings
 
-from .errors import IllegalDestination, ResourceNotFound
+from .errors import FileExpected, IllegalDestination, ResourceNotFound
 from .opener import manage_fs
 from .path import abspath, combine, frombase, isbase, normpath
 from .tools import is_thread_safe
@@ -269,6 +269,10 @@ def copy_file_internal(
 
     def _copy_locked():
         if dst_fs.hassyspath(dst_path):
+            # the destination is opened (truncated) first on this branch:
+            # fail for a missing or non-file source before that happens
+            if src_fs.getinfo(src_path).is_dir:
+                raise FileExpected(src_path)
             with dst_fs.openbin(dst_path, "w") as write_file:
                 src_fs.download(src_path, write_file)
         else:
